@@ -75,7 +75,7 @@ Theorem C01_source_AppendKey : forall dst key, dst <> [] -> len_ok dst -> bytes_
 Proof. exact source_AppendKey. Qed.
 
 (* the translated functions of internal/json (strings, keys, hex, object splice, markers, booleans, every
-   integer width and its slice form, times in the five formats, and the scalar float encoders: NaN/Inf strings,
+   integer width and its slice form, times in the five formats, and the float encoders with their slice forms: NaN/Inf strings,
    the 'e'/'f' choice against the float32 / float64 thresholds, the exponent clean-up that rewrites dst in place)
    return exactly what the hand-written model computes - so every theorem about the model's primitives is a
    theorem about this code.  For the floats strconv.AppendFloat is an oracle [fo] assumed to return the two texts
